@@ -42,6 +42,8 @@ type Anchor struct {
 type Contract struct {
 	Name        string // "Recv.Method" or "Func"
 	Requires    []*Clause
+	GhostOut    []string // "ghostout g_a g_b": exactly these ghosts are results of the call (default: every ghost named in a postcondition)
+	HasGhostOut bool
 	Serves      []*Clause // "serves [Cnn] text": the function belongs to the code a property quantifies over (no clause of its own)
 	Ensures     []*Clause
 	Modifies    []string
@@ -60,7 +62,7 @@ type Contract struct {
 	Params      string // for interface methods / externals: "(p []byte) (n int, err error)"
 }
 
-var clauseRe = regexp.MustCompile(`^(requires|ensures|owns|serves|invariant|decreases|modifies|loop|at|flags|params|assert|reason)\b`)
+var clauseRe = regexp.MustCompile(`^(requires|ensures|owns|serves|ghostout|invariant|decreases|modifies|loop|at|flags|params|assert|reason)\b`)
 var tagRe = regexp.MustCompile(`^\s*((?:\[[A-Za-z0-9_,\- ]+\]\s*)*)(?:([A-Za-z_][A-Za-z0-9_.\-]*):\s)?`)
 
 // parseContracts extracts all /*@ ... @*/ blocks of a file.
@@ -143,6 +145,10 @@ func parseContractBlock(body, file string, line0 int) (*Contract, error) {
 			curLoop = -1
 		case "serves":
 			ct.Serves = append(ct.Serves, mk(r))
+			curLoop = -1
+		case "ghostout":
+			ct.HasGhostOut = true
+			ct.GhostOut = append(ct.GhostOut, strings.Fields(strings.ReplaceAll(r.text, ",", " "))...)
 			curLoop = -1
 		case "owns":
 			c := mk(r)
